@@ -83,6 +83,27 @@ fn step(eng: &mut Arc<StorageEngine>, ws: &[&str]) -> String {
             None => "bad-op".into(),
             Some(key) => match create(eng, KEYS_DB, ty, key) { Some(true) => "ok".into(), Some(false) => "fail".into(), None => "bad-op".into() },
         },
+        // a key with a TTL that outlives the run: SCAN must treat it like any other live key
+        ["addttl", ty, k, ms] => match (of_hex(k), ms.parse::<u64>()) {
+            (Some(key), Ok(ms)) => match create(eng, KEYS_DB, ty, key.clone()) {
+                Some(true) => match eng.pexpire(KEYS_DB, &key, ms) { Ok(true) => "ok".into(), _ => "fail".into() },
+                Some(false) => "fail".into(),
+                None => "bad-op".into(),
+            },
+            _ => "bad-op".into(),
+        },
+        // a key whose TTL has run out (whether or not the sweeper has removed it yet): it does not exist any more
+        ["addexp", ty, k] => match of_hex(k) {
+            None => "bad-op".into(),
+            Some(key) => match create(eng, KEYS_DB, ty, key.clone()) {
+                Some(true) => match eng.pexpire(KEYS_DB, &key, 1) {
+                    Ok(true) => { std::thread::sleep(std::time::Duration::from_millis(2)); "ok".into() }
+                    _ => "fail".into(),
+                },
+                Some(false) => "fail".into(),
+                None => "bad-op".into(),
+            },
+        },
         ["del", k] => match of_hex(k) {
             None => "bad-op".into(),
             Some(key) => match eng.delete(KEYS_DB, &key) { Ok(true) => "1".into(), Ok(false) => "0".into(), Err(_) => "fail".into() },
@@ -100,7 +121,8 @@ fn step(eng: &mut Arc<StorageEngine>, ws: &[&str]) -> String {
             let r = match *kind {
                 "h" => match of_hex(v) { Some(v) => eng.hset(COLL_DB, ck, vec![(m, v)]).is_ok(), None => return "bad-op".into() },
                 "s" => { if *v != "-" { return "bad-op".into(); } eng.sadd(COLL_DB, ck, vec![m]).is_ok() }
-                "z" => match v.parse::<i64>() { Ok(sc) => eng.zadd(COLL_DB, ck, m, sc as f64).is_ok(), Err(_) => return "bad-op".into() },
+                // the score travels as the decimal value of its IEEE-754 bit pattern (so that +-inf, -0, denormals pass unchanged)
+                "z" => match v.parse::<u64>() { Ok(bits) => eng.zadd(COLL_DB, ck, m, f64::from_bits(bits)).is_ok(), Err(_) => return "bad-op".into() },
                 _ => return "bad-op".into(),
             };
             if r { "ok".into() } else { "fail".into() }
@@ -129,7 +151,7 @@ fn step(eng: &mut Arc<StorageEngine>, ws: &[&str]) -> String {
                 },
                 "z" if !nov => match eng.zscan(COLL_DB, &ck, cur, pat.as_deref(), cnt) {
                     Ok((next, xs)) => {
-                        let items: Vec<String> = xs.iter().map(|(m, s)| format!("{}={}", to_hex(m), s)).collect();
+                        let items: Vec<String> = xs.iter().map(|(m, s)| format!("{}={}", to_hex(m), s.to_bits())).collect();
                         format!("{} {}", next, if items.is_empty() { ".".to_string() } else { items.join("|") })
                     }
                     Err(_) => "fail".into(),
